@@ -422,6 +422,9 @@ static void xts_sweep(void)
 		for (int ks = 0; ks < 2; ks++) for (int tw = 0; tw < 3; tw++) {
 			if (tw && !vk_thorough && (len % 7) != (size_t)tw) continue;
 			if (tw && vk_want_trace) continue;
+			/* tweak 0 is a fresh seeded value per (length, key size): carry patterns of the GF(2^128) doublings
+			 * (which select different code in the stealing paths) vary over the sweep */
+			if (tw == 0) vk_fill(xts_tw[0], 16, 0x77aa00 + len * 2 + ks);
 			xts_ref_get(ks, tw, len);
 			if (secrets_mode) {
 				sec_reset(); sec_add_key(xts_k1, ks ? 256 : 128); sec_add_key(xts_k2, ks ? 256 : 128);
